@@ -631,6 +631,9 @@ func c13(r *core.Run) {
 	}
 	// K3: index maintenance keeps nil ("not indexed") apart from an empty key
 	for _, f2 := range txnUnit(p, ui) {
+		if isKeyPredicateHelper(f2) {
+			continue // a pure predicate over two keys is evaluated at its call sites
+		}
 		c, g, bn, _ := equalGuards(f2)
 		if c == 0 {
 			continue
@@ -1088,7 +1091,7 @@ func c14(r *core.Run) {
 	// N2
 	var uiCl *ssa.Function
 	for _, f2 := range txnUnit(p, ui) {
-		if len(keyPredicateCalls(f2)) > 0 {
+		if len(keyPredicateCalls(f2)) > 0 && !isKeyPredicateHelper(f2) {
 			uiCl = f2
 		}
 	}
@@ -1999,4 +2002,19 @@ func sameCellAcrossClosures(a, b ssa.Value) bool {
 	}
 	ca, cb := cell(a), cell(b)
 	return ca != nil && ca == cb
+}
+
+// isKeyPredicateHelper: a bool function over exactly two []byte parameters
+// (the unchanged-key predicate extracted into a helper).
+func isKeyPredicateHelper(fn *ssa.Function) bool {
+	if fn.Signature.Results().Len() != 1 || types.TypeString(fn.Signature.Results().At(0).Type(), nil) != "bool" {
+		return false
+	}
+	nb := 0
+	for _, prm := range fn.Params {
+		if types.TypeString(prm.Type(), nil) == "[]byte" {
+			nb++
+		}
+	}
+	return nb == 2 && len(fn.Params) == 2
 }
